@@ -51,9 +51,33 @@ func init() {
 					if !ok || se.Sel.Name != "Next" {
 						return true
 					}
-					ms, ok := ast.Unparen(se.X).(*ast.SelectorExpr)
-					if !ok || info.Uses[ms.Sel] != types.Object(matches) {
-						return true
+					if ms, ok := ast.Unparen(se.X).(*ast.SelectorExpr); !ok || info.Uses[ms.Sel] != types.Object(matches) {
+						// the loop stands in a helper that is handed the match set: streamIDListQuery(newTag.Matches)
+						po := identObj(info, se.X)
+						idx := -1
+						if po != nil && f.Lit == nil && f.Decl != nil {
+							idx = paramIndex(f, po)
+						}
+						if idx < 0 {
+							return true
+						}
+						fobj, _ := info.Defs[f.Decl.Name].(*types.Func)
+						handed := false
+						for _, g := range p.FnList {
+							if g.Pkg != f.Pkg || g.Body() == nil || fobj == nil {
+								continue
+							}
+							for _, cc := range callsIn(g.Body()) {
+								if p.Callee(g.Pkg, cc) == fobj && idx < len(cc.Args) {
+									if as, ok := ast.Unparen(cc.Args[idx]).(*ast.SelectorExpr); ok && g.Pkg.TypesInfo.Uses[as.Sel] == types.Object(matches) {
+										handed = true
+									}
+								}
+							}
+						}
+						if !handed {
+							return true
+						}
 					}
 					writes := false
 					for _, cc := range callsIn(fs.Body) {
